@@ -33,6 +33,10 @@ class VerifConstructionError(Exception):
     """Raised by the ``*Fail`` classes from their constructor"""
 
 
+#: what the ``*Fail`` classes raise (the check switches it per case)
+FAIL_WITH = VerifConstructionError
+
+
 class Record(object):
     """One construction: the object, its class name, target and arguments"""
 
@@ -96,7 +100,7 @@ class _RecordingOwner(object):
 class _FailingOwner(object):
     def __init__(self, target, *args, **kwargs):
         ATTEMPTS.append((type(self).__name__, target, args, kwargs))
-        raise VerifConstructionError("%s refuses to be constructed" % type(self).__name__)
+        raise FAIL_WITH("%s refuses to be constructed" % type(self).__name__)
 
 
 class _PoolBase(Pool):
@@ -180,7 +184,7 @@ class VDecoFail(_FailingOwner, PoolDecorator):
 class VPoolFail(_PoolBase):
     def __init__(self, *args, **kwargs):
         ATTEMPTS.append((type(self).__name__, NO_TARGET, args, kwargs))
-        raise VerifConstructionError("%s refuses to be constructed" % type(self).__name__)
+        raise FAIL_WITH("%s refuses to be constructed" % type(self).__name__)
 
 
 # ---------------------------------------------------------------------------------------
